@@ -97,8 +97,8 @@ func units(tier string) []mc.Unit {
 							continue
 						}
 						for _, errs := range []int{0, 1} {
-							if errs == 1 && (n > 2 && tier != "thorough") {
-								continue
+							if errs == 1 && (n > 2 && tier != "thorough" || n > 3) {
+								continue // transient RPC failures (3-4 kinds at every RPC): chains of <= 2 blocks (quick) / <= 3 (thorough)
 							}
 							for _, initial := range []uint64{0, 1} {
 								if initial == 1 && n < 2 {
